@@ -157,8 +157,15 @@ func (x *Exec) siteOrdinal(fr *Frame, text string) int {
 // ghost directives --------------------------------------------------------
 
 func (x *Exec) contractFrame(fr *Frame) *Frame {
-	if fr.contract != nil {
-		return fr
+	// a function literal written inside the contract's function is part of its text:
+	// call-site directives apply there too (not inside inlined named callees)
+	for f := fr; f != nil; f = f.parent {
+		if f.contract != nil {
+			return f
+		}
+		if f.fn != nil {
+			return nil
+		}
 	}
 	return nil
 }
@@ -530,6 +537,15 @@ func (x *Exec) invoke(s *State, fr *Frame, fn *types.Func, recv Value, recvT typ
 	}
 	// inline
 	if x.inlinable(orig) {
+		if x.top != nil && x.top.Abstract && x.spec == 0 {
+			// abstract mode: a callee that leaves the subset is replaced by an unknown
+			// call (havoc over-approximates it) instead of abstracting the whole
+			// calling statement, which would also skip the directives attached to it
+			if v, ok := x.tryInline(s, fr, orig, sig, recv, args, call); ok {
+				return v
+			}
+			return x.havocCall(s, fr, orig, sig, args, call)
+		}
 		return x.inline(s, fr, orig, sig, recv, args, call)
 	}
 	if dep := ownStateDependency(orig); dep != "" && x.spec == 0 {
@@ -606,6 +622,27 @@ func (x *Exec) ownStateCall(s *State, fr *Frame, fn *types.Func, sig *types.Sign
 		}
 	}
 	return x.resultOf(s, sig, sanitize(fn.Name())), true
+}
+
+func (x *Exec) tryInline(s *State, fr *Frame, fn *types.Func, sig *types.Signature, recv Value, args []Value, call *ast.CallExpr) (v Value, ok bool) {
+	nObl := len(x.obls)
+	nErr := len(x.errs)
+	t := s.fork()
+	defer func() {
+		if r := recover(); r != nil {
+			u, isU := r.(unsupported)
+			if !isU {
+				panic(r)
+			}
+			x.obls = x.obls[:nObl]
+			x.errs = x.errs[:nErr]
+			x.note("abstracted", fmt.Sprintf("%s could not be inlined (%s)", fullName(fn), u.msg))
+			v, ok = nil, false
+		}
+	}()
+	v = x.inline(t, fr, fn, sig, recv, args, call)
+	*s = *t
+	return v, true
 }
 
 func (x *Exec) havocCall(s *State, fr *Frame, fn *types.Func, sig *types.Signature, args []Value, call *ast.CallExpr) Value {
